@@ -391,6 +391,8 @@ pub fn gen(prop: &str, tier: &str, seed: u64) -> Out {
                     both(&mut o, format!("{} {}", op, d));
                 }
                 for op in ["tobool", "toi64", "tou64"] { o.push(format!("{} {}", op, d)); }
+                for op in ["isnull", "isbool", "isnum", "isstr", "isi64", "isu64", "isf64", "asf64", "tof64"] { o.push(format!("t:{} {}", op, d)); }
+                o.push(format!("t:caststr {} {}", d, crate::ops_text::fmt_table(&jsonb::from_slice(&v.to_vec()).unwrap_or(Value::Null))));
                 both(&mut o, format!("travstr {} eq:-", d));
                 match &v {
                     Value::Array(vs) => {
@@ -445,6 +447,16 @@ pub fn gen(prop: &str, tier: &str, seed: u64) -> Out {
                 o.push(format!("strf64 {}", hex(s.as_bytes())));
                 let dv = Value::String(std::borrow::Cow::Owned(s.to_string())).to_vec();
                 for op in ["tobool", "toi64", "tou64"] { o.push(format!("{} {}", op, hex(&dv))); }
+                o.push(format!("t:tof64 {}", hex(&dv)));
+                o.push(format!("t:caststr {} -", hex(&dv)));
+            }
+            // scalar roots of every kind through every cast (the generated documents are mostly containers)
+            for _ in 0..scale(tier, 300, 6000) {
+                let v = gen_scalar(&mut r, &c);
+                let d = hex(&v.to_vec());
+                for op in ["isnull", "isbool", "isnum", "isstr", "isi64", "isu64", "isf64", "asf64", "tof64"] { o.push(format!("t:{} {}", op, d)); }
+                o.push(format!("t:caststr {} {}", d, crate::ops_text::fmt_table(&jsonb::from_slice(&v.to_vec()).unwrap_or(Value::Null))));
+                for op in ["asnum", "asi64", "asu64", "asstr", "asbool", "asnull", "tobool", "toi64", "tou64"] { o.push(format!("{} {}", op, d)); }
             }
         }
         "C06" | "C13" => {
@@ -839,6 +851,9 @@ pub fn gen(prop: &str, tier: &str, seed: u64) -> Out {
                     o.push(format!("pmatch {} {}", d, ph)); o.push(format!("spec:pmatch {} {}", d, ph));
                     o.push(format!("getpath {} {} {}", pre, d, ph));
                     o.push(format!("pathexists {} {}", d, ph));
+                    o.push(format!("getpathfirst {} {} {}", pre, d, ph));
+                    o.push(format!("getpatharray {} {} {}", pre, d, ph));
+                    o.push(format!("pathmatch {} {}", d, ph));
                 }
             }
             // scalar roots, empty containers, the repaired cases
@@ -937,6 +952,32 @@ pub fn gen(prop: &str, tier: &str, seed: u64) -> Out {
                     o.push(format!("tjtext {} {}", opn, x));
                     o.push(format!("t:{} {}", opn, x));
                 }
+                for opn in ["isnull", "isbool", "isnum", "isstr", "isi64", "isu64", "isf64", "asf64", "tof64"] {
+                    o.push(format!("tjtext {} {}", opn, x));
+                    o.push(format!("t:{} {}", opn, x));
+                }
+                if let Ok(pv) = jsonb::parse_value(t.as_bytes()) {
+                    let f = crate::ops_text::fmt_table(&pv);
+                    o.push(format!("tjtext caststr {} {}", x, f));
+                    o.push(format!("t:caststr {} {}", x, f));
+                }
+            }
+            for _ in 0..scale(tier, 150, 4000) {
+                let v = gen_scalar(&mut r, &c);
+                if crate::gen_text::has_nan(&v) { continue; }
+                let mut t = String::new();
+                let st = if r.chance(1, 3) { crate::gen_text::Style::Lenient } else { crate::gen_text::Style::Strict };
+                crate::gen_text::render_json(&mut r, &v, st, &mut t);
+                let t = t.trim_start_matches(' ');
+                let pv = match jsonb::parse_value(t.as_bytes()) { Ok(pv) => pv, Err(_) => continue };
+                let x = hex(t.as_bytes());
+                for opn in ["isnull", "isbool", "isnum", "isstr", "isi64", "isu64", "isf64", "asf64", "tof64", "asi64", "asu64", "asnum", "tobool", "toi64", "tou64"] {
+                    o.push(format!("tjtext {} {}", opn, x));
+                    o.push(format!("t:{} {}", opn, x));
+                }
+                let f = crate::ops_text::fmt_table(&pv);
+                o.push(format!("tjtext caststr {} {}", x, f));
+                o.push(format!("t:caststr {} {}", x, f));
             }
             for (t, d) in [("-0", "toserde"), ("\"\\ud800\"", "toserde"), ("\t1", "typeof"), ("\n[1]", "typeof"), ("[12345678]", "contains"), ("\"abc0xy\"", "asstr"), ("12345678", "asu64")] {
                 let v = jsonb::parse_value(t.as_bytes()).unwrap();
